@@ -273,8 +273,9 @@ Definition privileged_ops : list string :=
    "Priv:mint.Init"; "Priv:UpdateSnapshotLimit"]%string.
 
 (* which (operation, role, component) combinations the property allows for a non-signer *)
-(* dispute messages carry [fee paid from stake?; is the dispute fully funded after the message?] *)
-Definition funded_after (params : list Z) : bool := match params with [_; 1] => true | _ => false end.
+(* dispute messages carry [fee paid from stake?; is the dispute fully funded after the message?; what the message added
+   to the dispute's fee total; the stake the same message escrowed (the slash amount when it completed the fee)] *)
+Definition funded_after (params : list Z) : bool := match params with _ :: 1 :: _ => true | _ => false end.
 Definition from_stake (params : list Z) : bool := match params with 1 :: _ => true | _ => false end.
 
 Definition exception_ok (op : string) (params : list Z) (role comp : string) : bool :=
@@ -307,6 +308,13 @@ Definition c19_step (_ : snap) (s : hstep) : issues :=
 Definition c19_hist_check (c : hist_case) : issues :=
   let 'Hist init steps := c in walk c19_step init steps.
 
+(* does some consecutive (state before, step) pair satisfy [f]? *)
+Fixpoint existsb_pair (f : snap -> hstep -> bool) (before : snap) (steps : list hstep) : bool :=
+  match steps with
+  | [] => false
+  | s :: t => f before s || existsb_pair f (st_after s) t
+  end.
+
 (* finding F06 (C09): a commission rate outside [0,1] is accepted and makes a selector's credit negative;
    the other selectors are then credited more than was paid in *)
 Definition hist_classes (c : hist_case) : list string :=
@@ -315,4 +323,13 @@ Definition hist_classes (c : hist_case) : list string :=
   (* finding C13b (C13): a dispute fee paid from stake is credited in full but escrowed with truncation *)
   ++ (if existsb (fun s => ((st_op s =? "ProposeDispute") || (st_op s =? "AddFeeToDispute"))%string && (st_result s =? 0)
                           && match st_params s with 1 :: _ => true | _ => false end) steps
-      then ["C13b"%string] else []).
+      then ["C13b"%string] else [])
+  (* ... narrowed for the chain-halt consequence (C02): a payment from stake after which the dispute account holds less
+     than the fee credited (plus the stake escrowed by the same message) *)
+  ++ (if existsb_pair (fun before s =>
+           ((st_op s =? "ProposeDispute") || (st_op s =? "AddFeeToDispute"))%string && (st_result s =? 0)
+           && match st_params s with
+              | [1; _; credited; slash_now] => sp_dispute (st_after s) - sp_dispute before <? credited + slash_now
+              | _ => false
+              end) init steps
+      then ["C13b-short"%string] else []).
